@@ -110,14 +110,14 @@ class Agg:
             self.violating.append(rec)
 
 
-def run_items(engine, prop, tier, seed, n_items, jobs, wall_cap, stop_on_violation=True, keep="samples"):
+def run_items(engine, prop, tier, seed, n_items, jobs, wall_cap, stop_on_violation=True, keep="samples", start=0):
     chunk = max(1, getattr(engine, "CHUNK", 8))
-    idx_chunks = [list(range(a, min(a + chunk, n_items))) for a in range(0, n_items, chunk)]
+    idx_chunks = [list(range(a, min(a + chunk, start + n_items))) for a in range(start, start + n_items, chunk)]
     if keep == "all":
         keep_cases = "all"
     else:
         step = max(1, n_items // 5)
-        keep_cases = set(range(0, n_items, step))
+        keep_cases = set(range(start, start + n_items, step))
     args = [(engine, prop, tier, seed, c, keep_cases) for c in idx_chunks]
     agg = Agg()
     known_sigs = {k["signature"] for k in load_known().get("findings", []) if k["property"] == prop}
@@ -259,6 +259,7 @@ def main(engine, prop, argv):
     ap.add_argument("--fingerprints", action="store_true", help="print run fingerprints as JSON and exit (self-test)")
     ap.add_argument("--no-evidence", action="store_true")
     ap.add_argument("--wall-cap", type=float, default=None)
+    ap.add_argument("--start", type=int, default=0, help="first item index (self-tests)")
     a = ap.parse_args(argv)
 
     t0 = time.monotonic()
@@ -272,8 +273,10 @@ def main(engine, prop, argv):
         planned = engine.plan(prop, a.tier, a.seed)
         n_items = planned if a.runs is None else min(a.runs, planned) if a.fingerprints else a.runs
         wall_cap = a.wall_cap if a.wall_cap is not None else engine.PROPERTIES[prop]["wall_cap"][a.tier]
+        if a.start:
+            n_items = max(0, min(n_items, planned - a.start))
         agg, _ = run_items(engine, prop, a.tier, a.seed, n_items, a.jobs, wall_cap,
-                           keep="samples")
+                           keep="samples", start=a.start)
         wall = time.monotonic() - t0
         if a.fingerprints:
             print("FINGERPRINTS " + cjson({str(k): v for k, v in sorted(agg.fps.items())}))
